@@ -145,17 +145,23 @@ class ChangeContents(Change):
         # IDEA: Only saving diffs; possible problems when undo/redoing
         self.new_contents = new_contents
         self.old_contents = old_contents
+        self._old_newlines = None
 
     @_handle_job_set
     def do(self):
         if self.old_contents is None:
             self.old_contents = self.resource.read()
+        # The newline convention of the text that is replaced; it cannot be
+        # detected again if the new text has no line break
+        self._old_newlines = self.resource.newlines
         self._operations.write_file(self.resource, self.new_contents)
 
     @_handle_job_set
     def undo(self):
         if self.old_contents is None:
             raise exceptions.HistoryError("Undoing a change that is not performed yet!")
+        if self._old_newlines is not None:
+            self.resource.newlines = self._old_newlines
         self._operations.write_file(self.resource, self.old_contents)
 
     def __str__(self):
